@@ -918,8 +918,9 @@ benign('benign-c14-scratch-cache-committed', 'C14', DEC, """    let (remaining, 
     } else {
         Ok((term, None))
     }""", """    let mut scratch = cache.clone();
-    let (remaining, term) = parse_versioned_term_with_cache(data, &mut scratch).map_err(from_nom_error)?;
+    let parsed = parse_versioned_term_with_cache(data, &mut scratch).map_err(from_nom_error);
     *cache = scratch;
+    let (remaining, term) = parsed?;
 
     if !remaining.is_empty() {
         let (new_remaining, payload) = parse_term(remaining, cache).map_err(from_nom_error)?;
@@ -930,6 +931,17 @@ benign('benign-c14-scratch-cache-committed', 'C14', DEC, """    let (remaining, 
     } else {
         Ok((term, None))
     }""")
+# the same with the copy written back on the successful way only: the entries of a header whose control term is refused are lost,
+# although the peer has entered them (demonstrated by seeded/C03-19 and seeded/C08-20) - until round 10 this was wrongly listed as benign
+canary('c14-scratch-cache-committed-on-success-only', 'C14', DEC, """    let (remaining, term) = parse_versioned_term_with_cache(data, cache).map_err(from_nom_error)?;
+
+    if !remaining.is_empty() {
+        let (new_remaining, payload) = parse_term(remaining, cache).map_err(from_nom_error)?;""", """    let mut scratch = cache.clone();
+    let (remaining, term) = parse_versioned_term_with_cache(data, &mut scratch).map_err(from_nom_error)?;
+    *cache = scratch;
+
+    if !remaining.is_empty() {
+        let (new_remaining, payload) = parse_term(remaining, cache).map_err(from_nom_error)?;""", 'cache-copy-not-written-back')
 benign('benign-c19-deadline-per-iteration', 'C19', 'crates/edp_client/src/connection.rs', """                let mut len_bytes = [0u8; 4];
                 tokio::time::timeout(timeout, read_half.read_exact(&mut len_bytes))""", """                let mut len_bytes = [0u8; 4];
                 let now = tokio::time::Instant::now();
